@@ -20,6 +20,12 @@ theorem keyLe_antisymm {a b : Nat × Nat} (h1 : keyLe a b = true) (h2 : keyLe b 
   simp only [keyLe, Bool.or_eq_true, decide_eq_true_eq, Bool.and_eq_true] at *
   apply Prod.ext <;> omega
 
+theorem keyLt_le {a b : Nat × Nat} (h : keyLt a b = true) : keyLe a b = true := by
+  simp only [keyLe, keyLt, Bool.or_eq_true, decide_eq_true_eq, Bool.and_eq_true] at *; omega
+
+theorem not_keyLt_le {a b : Nat × Nat} (h : ¬ keyLt a b = true) : keyLe b a = true := by
+  simp only [keyLe, keyLt, Bool.or_eq_true, decide_eq_true_eq, Bool.and_eq_true] at *; omega
+
 theorem perm_insertSorted (x : Item × Option Int) (h : Hist) : insertSorted x h ~ x :: h := by
   induction h with
   | nil => exact Perm.refl _
@@ -42,18 +48,16 @@ theorem sorted_insertSorted (x : Item × Option Int) (h : Hist) (hs : h.Pairwise
     rw [pairwise_cons] at hs
     simp only [insertSorted]
     split
-    · rename_i hle
+    · rename_i hlt
+      have hle : leFb y x := keyLt_le hlt
       rw [pairwise_cons]
       refine ⟨?_, ih hs.2⟩
       intro e he
       rcases (mem_insertSorted x e ys).mp he with rfl | he
       · exact hle
       · exact hs.1 e he
-    · rename_i hle
-      have hxy : leFb x y := by
-        rcases keyLe_total (fbKey y) (fbKey x) with h | h
-        · exact absurd h hle
-        · exact h
+    · rename_i hlt
+      have hxy : leFb x y := not_keyLt_le hlt
       rw [pairwise_cons]
       refine ⟨?_, pairwise_cons.mpr hs⟩
       intro e he
